@@ -131,6 +131,9 @@ def run(ctx):
     for setting, flag, env, cfg, where in combos():
         for variant in ((0, 1) if setting == 'maxdepth' else (0,)):
             cases.append(build(setting, flag, env, cfg, where, variant))
+            if setting == 'maxdepth' and cfg == 'set' and not flag and not env:
+                for _ in range(9):          # the other nine commands of the rotation
+                    cases.append(build(setting, flag, env, cfg, where, variant))
     # an explicit flag / environment value that equals the built-in default still beats the configuration file
     for setting in ('database', 'logfile', 'dateFormat', 'maxdepth'):
         for src in ('flag', 'env'):
